@@ -138,7 +138,7 @@ CHECKS = {
          'the invariant "new_infecteds = nodes susceptible at step start reached by a successful contact from an infectious node" (BFS layer recurrence; '
          'the rule is asked with (u, v, *args) only about susceptible v), one-step infectiousness unless the recovery rule keeps the node, S+I+R=N, '
          'unit time steps; _simple_test_transmission_ = one U01 draw compared with p; percolate_network = same nodes, symmetric sub-graph, each edge '
-         'decided by its own draw; wrappers by delegation binding. basic_discrete_SIS loop is not covered.',
+         'decided by its own draw; wrappers by delegation binding. basic_discrete_SIS only by a bounded scripted-draw check (supplementary).',
     design_ref='DESIGN.md section 5 "C12"',
     note='Trusted as C01; M (cited): layer recurrence => BFS distance, independent Bernoulli contacts => Reed-Frost chain; the transmission rule is a function of the ordered pair within a step.',
     technique='contract-based deductive verification: nested loop invariants over the generation step, call-back argument obligations, z3; delegation-binding analysis'),
